@@ -929,6 +929,13 @@ func conclude(prop, tier string, seed int64, t0 time.Time, loadS float64, result
 					if nr.Status == "panic" {
 						reproduced = true
 					}
+					if !reproduced && nr.Status == "assert" && len(nr.Failures) > 0 {
+						// the natively compiled code fails another assertion of the same harness on the solver's
+						// input (the native scheduler took another turn than the model's schedule): a real
+						// violation all the same - reported under the assertion that failed natively
+						reproduced = true
+						f.Label = nr.Failures[0] + " (solver counterexample for: " + f.Label + ")"
+					}
 				case "panic":
 					reproduced = nr.Status == "panic"
 				}
